@@ -180,6 +180,15 @@ theorem applyOp_good (b : Bufs) (op : Op) {s s' : MStream} {b' : Bufs}
     obtain ⟨rfl, rfl⟩ := h
     exact same (by unfold WellNested substitute; rw [map_balance (substEv_effPres p r n)]; exact hwn)
       (map_good (substEv_effPres p r n) hg)
+  | mapText f =>
+    simp only [applyOp, Option.some.injEq, Prod.mk.injEq] at h
+    obtain ⟨rfl, rfl⟩ := h
+    exact same (by unfold WellNested mapText; rw [map_balance (mapTextEv_effPres f)]; exact hwn)
+      (map_good (mapTextEv_effPres f) hg)
+  | trace =>
+    simp only [applyOp, trace, Option.some.injEq, Prod.mk.injEq] at h
+    obtain ⟨rfl, rfl⟩ := h
+    exact same hwn hg
   | filter f =>
     simp only [applyOp, Option.some.injEq, Prod.mk.injEq] at h
     obtain ⟨rfl, rfl⟩ := h
@@ -267,6 +276,15 @@ theorem applyOp_dirty (b : Bufs) (op : Op) {s s' : MStream} {b' : Bufs}
     obtain ⟨rfl, rfl⟩ := h
     exact same (by unfold WellNested substitute; rw [map_balance (substEv_effPres p r n)]; exact hwn)
       (map_inner (substEv_effPres p r n) hin)
+  | mapText f =>
+    simp only [applyOp, Option.some.injEq, Prod.mk.injEq] at h
+    obtain ⟨rfl, rfl⟩ := h
+    exact same (by unfold WellNested mapText; rw [map_balance (mapTextEv_effPres f)]; exact hwn)
+      (map_inner (mapTextEv_effPres f) hin)
+  | trace =>
+    simp only [applyOp, trace, Option.some.injEq, Prod.mk.injEq] at h
+    obtain ⟨rfl, rfl⟩ := h
+    exact same hwn hin
   | remove => exact absurd hok (by simp [Op.OkDirty])
   | replace c => exact absurd hok (by simp [Op.OkDirty])
   | wrap t a kids => exact absurd hok (by simp [Op.OkDirty])
